@@ -19,7 +19,10 @@ VERIF = os.path.dirname(os.path.dirname(os.path.abspath(__file__)))
 REPO = os.environ.get("VERIF_REPO", "/repo")
 if REPO not in sys.path:
     sys.path.insert(0, REPO)  # `import sqlframe` must resolve to the tree under test, before the editable install
-LEAN_DIR = os.path.join(VERIF, "lean")
+# VERIF_LEAN_DIR: a private copy of lean/ (Gen + build output) so that checks against different trees can run at once;
+# VERIF_OUT: where replays/ and evidence_other_tree/ of such a run go
+LEAN_DIR = os.environ.get("VERIF_LEAN_DIR") or os.path.join(VERIF, "lean")
+OUT_DIR = os.environ.get("VERIF_OUT") or VERIF
 GEN_DIR = os.path.join(LEAN_DIR, "SqlframeModel", "Gen")
 ALLOWED_AXIOMS = {"propext", "Classical.choice", "Quot.sound"}
 FORBIDDEN = re.compile(r"\b(sorry|admit|native_decide|bv_decide|implemented_by)\b|^\s*axiom\s|unsafe\s|maxHeartbeats\s+0")
@@ -287,7 +290,7 @@ def report_known(ctx: Ctx, entry: t.Dict[str, t.Any], what: str) -> None:
 
 
 def report_violation(ctx: Ctx, replay: t.Dict[str, t.Any], no_input: bool = False) -> str:
-    d = os.path.join(VERIF, "replays", ctx.prop)
+    d = os.path.join(OUT_DIR, "replays", ctx.prop)
     os.makedirs(d, exist_ok=True)
     ctx.replay_n += 1
     path = os.path.join(d, f"{ctx.seed}-{ctx.replay_n}.json")
@@ -299,7 +302,7 @@ def report_violation(ctx: Ctx, replay: t.Dict[str, t.Any], no_input: bool = Fals
         replay["no_failing_input_found"] = True
     with open(path, "w") as f:
         json.dump(replay, f, indent=1, default=str)
-    rel = os.path.relpath(path, VERIF)
+    rel = os.path.relpath(path, OUT_DIR)
     line = f"VIOLATION property={ctx.prop} replay={rel}" + (" no-failing-input-found" if no_input else "")
     print(line, flush=True)
     ctx.violations.append({"replay": rel, "no_input": no_input})
@@ -324,7 +327,7 @@ def write_evidence(ctx: Ctx, level: str = "proof") -> None:
     }
     # evidence describes runs against /repo itself; a run pointed at another tree (mutation experiments)
     # must not overwrite it
-    d = os.path.join(VERIF, "evidence" if os.path.realpath(REPO) == "/repo" else "evidence_other_tree")
+    d = os.path.join(VERIF, "evidence") if os.path.realpath(REPO) == "/repo" else os.path.join(OUT_DIR, "evidence_other_tree")
     os.makedirs(d, exist_ok=True)
     tmp = os.path.join(d, f".{ctx.prop}.json.tmp")
     with open(tmp, "w") as f:
